@@ -283,7 +283,7 @@ func c08FreshMap(m ssa.Value) bool {
 
 func c08R1(c *Ctx, r *c08Roles) {
 	const R1 = "C08.R1.index-projection"
-	c.Expect(R1, 8)
+	c.Expect(R1, 9)
 	refName, okRef := c08RefNameConst(c.P)
 	if !okRef {
 		c.LostAnchor(R1, "ocispec.AnnotationRefName")
@@ -678,6 +678,12 @@ func c08R1(c *Ctx, r *c08Roles) {
 			}
 		}
 		c.Check(R1, sn+"|resolver-maps-not-written", S.Pos(), okFresh, ifelse(okFresh, "every map written by the projection (and the strip helper) is made locally", whyFresh+": the descriptor held by the resolver (and returned by Resolve) would change"))
+		// snapshot, assignment and file write form one critical section of the index lock
+		for _, cs := range c08IndexCriticalSections(c.P, r) {
+			if cs.Fn == S {
+				c.Check(R1, cs.Key, cs.Pos, cs.OK, ifelse(cs.OK, cs.How, cs.Why+" — concurrent savers (Tag and Untag hold s.sync only in read mode) can write index.json in the reverse order of their snapshots, so the file no longer reflects the tag map"))
+			}
+		}
 		// result stored, written, error returned
 		var wr []ssa.CallInstruction
 		for _, call := range Calls(S, func(string) bool { return true }) {
@@ -1067,6 +1073,10 @@ var c08Mutants = []Mutant{
 		Old:    "\tannotations := make(map[string]string, size)\n\tfor k, v := range desc.Annotations {\n\t\tif k != ocispec.AnnotationRefName {\n\t\t\tannotations[k] = v\n\t\t}\n\t}\n\tdesc.Annotations = annotations\n\treturn desc\n",
 		New:    "\tdelete(desc.Annotations, ocispec.AnnotationRefName)\n\treturn desc\n",
 		Expect: "C08.R1.index-projection|(*~/content/oci.Store).saveIndex|resolver-maps-not-written"},
+	{Name: "saveindex-unlocks-before-write", File: "content/oci/oci.go",
+		Old:    "\ts.index.Manifests = manifests\n\treturn s.writeIndexFile()\n",
+		New:    "\ts.index.Manifests = manifests\n\ts.indexLock.Unlock()\n\tdefer s.indexLock.Lock()\n\treturn s.writeIndexFile()\n",
+		Expect: "C08.R1.index-projection|(*~/content/oci.Store).saveIndex|snapshot-assignment-write-one-critical-section"},
 	{Name: "saveindex-write-error-dropped", File: "content/oci/oci.go",
 		Old: "\ts.index.Manifests = manifests\n\treturn s.writeIndexFile()\n", New: "\ts.index.Manifests = manifests\n\ts.writeIndexFile()\n\treturn nil\n",
 		Expect: "C08.R1.index-projection|(*~/content/oci.Store).saveIndex|result-written-and-error-returned"},
